@@ -96,7 +96,7 @@ def conclude(prop, tier, seed, verdicts, scr):
                 if v == "inconclusive":
                     continue
                 path, confirmed = replay.record(prop, name, kind, dict(r, lemma=l["name"], counterexample=l.get("counterexample"),
-                                                                      bad_key=key), l["name"], scr)
+                                                                      bad_key=key, replayed=l.get("replayed", True)), l["name"], scr)
                 if confirmed:
                     lines.append("VIOLATION property=%s replay=%s" % (prop, path))
                     nviol += 1
